@@ -203,6 +203,9 @@ func (g *Gen) structSort(t types.Type, bv bool) string {
 		fs = append(fs, fmt.Sprintf("(%s Int)", g.fieldAcc(name, "_dummy")))
 	}
 	g.Pre.add(fmt.Sprintf("(declare-datatypes ((%s 0)) (((mk_%s %s))))", name, name, strings.Join(fs, " ")))
+	for i := 0; i < st.NumFields(); i++ {
+		accessorOf[g.fieldAcc(name, st.Field(i).Name())] = [2]string{"mk_" + name, fmt.Sprint(i)}
+	}
 	return name
 }
 
